@@ -1334,7 +1334,7 @@ pub fn run(ctx: &mut Ctx) -> &'static str {
     }
 
     // ---- generated: single format_response calls
-    for _ in 0..ctx.n(700, 12000) {
+    for _ in 0..ctx.n(3000, 30000) {
         let (idx, true) = begin!() else { continue };
         let mut rng = Rng::for_case(ctx.seed, PROP, idx as u64);
         let fmt = gen_format(&mut rng, true);
@@ -1346,7 +1346,7 @@ pub fn run(ctx: &mut Ctx) -> &'static str {
         case_f(ctx, idx, &fmt, &resp);
     }
     // ---- generated: Combined sinks
-    for _ in 0..ctx.n(80, 1500) {
+    for _ in 0..ctx.n(400, 4000) {
         let (idx, true) = begin!() else { continue };
         let mut rng = Rng::for_case(ctx.seed, PROP, idx as u64);
         let k = rng.below(4);
@@ -1371,7 +1371,7 @@ pub fn run(ctx: &mut Ctx) -> &'static str {
         case_x(ctx, idx, &fmts, nest, &resp);
     }
     // ---- generated: sink life cycles with real threads; a second run appends to the file of the first
-    let n_sink = ctx.n(160, 2500);
+    let n_sink = ctx.n(700, 7000);
     let mut k = 0;
     while k < n_sink {
         // a chain of runs on one file; every run is a case of its own.  All randomness of the chain derives
@@ -1392,7 +1392,7 @@ pub fn run(ctx: &mut Ctx) -> &'static str {
                 _ => 1 + rng.below(16),
             };
             let poison = threads == 1 && rng.chance(1, 25);
-            let big_case = rng.chance(1, 14);
+            let big_case = rng.chance(1, 10);
             let per = if big_case { 1 + rng.below(2) } else { rng.below(7) };
             let mut workers: Vec<Vec<Value>> = vec![];
             for _ in 0..threads {
@@ -1402,7 +1402,7 @@ pub fn run(ctx: &mut Ctx) -> &'static str {
                     if poison && rng.chance(1, 3) {
                         w.push(json!(7));
                     } else {
-                        let big = big_case && rng.chance(1, 3);
+                        let big = big_case && rng.chance(1, 2);
                         w.push(gen_response(&mut rng, big));
                     }
                 }
@@ -1415,11 +1415,11 @@ pub fn run(ctx: &mut Ctx) -> &'static str {
                 1 => 'e',
                 _ => 'a',
             };
-            let rate = match rng.below(6) {
-                0 => None,
-                1 => Some(1),
-                2 => Some(rng.range(2, 8)),
-                3 if mode == 'a' => Some(-rng.range(0, 3)),
+            let rate = match rng.below(12) {
+                0 | 1 => None,
+                2 | 3 => Some(1),
+                4..=6 => Some(rng.range(2, 8)),
+                7 if mode == 'a' => Some(-rng.range(0, 3)),
                 _ => Some(rng.range(1, 1000)),
             };
             let c = SinkCase { mode, existing: existing.clone(), fmt: fmt.clone(), rate, close: rng.chance(1, 6), persist: rng.chance(1, 2), schedule, workers };
@@ -1441,7 +1441,7 @@ pub fn run(ctx: &mut Ctx) -> &'static str {
             let c = AppCase { existing: None, fmt: FmtSpec::Json(true), rate: None, persist: true, parallelism: 2, queries: vec![json!({"origin_vertex": 0, "destination_vertex": 2}), json!(5)] };
             case_a(ctx, idx, &app, &c);
         }
-        let n_app = ctx.n(60, 800);
+        let n_app = ctx.n(150, 1500);
         let mut k = 0;
         while k < n_app {
             let head = next;
